@@ -38,4 +38,54 @@ for a in small:
             triples += 1
             if val[(b, c)] <= 0 and val[(a, c)] > 0:
                 print(json.dumps({"violation": "not transitive", "a": a, "b": b, "c": c})); sys.exit(1)
-print(json.dumps({"ok": True, "strings": len(strings), "pairs": pairs, "triples": triples, "alphabet": ALPHA, "maxlen": maxlen}))
+# (summary printed at the end)
+
+
+# ---------------------------------------------------------------- packages: epoch / version / release composition, the six operators, max / min
+from insights.parsers.installed_rpms import InstalledRpm, InstalledRpms
+from insights.parsers.rpm_vercmp import rpm_version_compare
+
+
+class SubRpm(InstalledRpm):          # parsers derive their own package classes; comparisons across them must agree as well
+    pass
+
+
+def ref_cmp(a, b):
+    ea, eb = int(a["epoch"]), int(b["epoch"])
+    if ea != eb:
+        return -1 if ea < eb else 1
+    r = S(a["version"], b["version"])
+    return r if r else S(a["release"], b["release"])
+
+
+def sign(x):
+    return (x > 0) - (x < 0)
+
+
+EPOCHS = ["0", "1", "2", "9", "10", "32", "100"]
+VERS = ["1.0", "1.10", "1.9", "2"]
+RELS = ["1", "2.el8", "10.el8"]
+pkgs = [dict(name="pkg", epoch=e, version=v, release=r, arch="x86_64") for e in EPOCHS for v in VERS for r in RELS]
+objs = [(InstalledRpm(dict(p)), p) for p in pkgs] + [(SubRpm(dict(p)), p) for p in pkgs[::5]]
+npk = 0
+for (x, px) in objs:
+    for (y, py) in objs:
+        npk += 1
+        want = ref_cmp(px, py)
+        got = sign(rpm_version_compare(x, y))
+        if got != want:
+            print(json.dumps({"violation": "rpm_version_compare disagrees with epoch / version / release order", "a": px, "b": py, "got": got, "want": want}))
+            sys.exit(1)
+        ops = {"<": x < y, "==": x == y, ">": x > y, "<=": x <= y, ">=": x >= y, "!=": x != y}
+        exp = {"<": want < 0, "==": want == 0, ">": want > 0, "<=": want <= 0, ">=": want >= 0, "!=": want != 0}
+        if ops != exp:
+            print(json.dumps({"violation": "the rich comparison operators do not agree with the order", "a": px, "b": py, "classes": [type(x).__name__, type(y).__name__],
+                              "operators": ops, "expected": exp}))
+            sys.exit(1)
+for trio in itertools.permutations(objs[::9], 3):
+    items = [o for o, _ in trio]
+    best = max(trio, key=lambda t: (int(t[1]["epoch"]),))        # coarse reference: the maximum epoch must win when it is unique
+    if [int(t[1]["epoch"]) for t in trio].count(int(best[1]["epoch"])) == 1 and max(items) is not best[0]:
+        print(json.dumps({"violation": "max() does not return the newest package", "packages": [t[1] for t in trio]}))
+        sys.exit(1)
+print(json.dumps({"ok": True, "strings": len(strings), "pairs": pairs, "triples": triples, "alphabet": ALPHA, "maxlen": maxlen, "package_pairs": npk}))
